@@ -354,6 +354,76 @@ let run_estab linger toks =
     "estab " ^ String.trim (Buffer.contents out)
   | _ -> "badline"
 
+(* e2e <fault>...: the pair model (run/step) under the protocol of the bring-up and the two runners' own schedules.
+   A = LAC, B = LNS.  Bodies: 1 SCCRQ, 2 SCCRP, 3 SCCCN, 4 ICRQ, 5 ICRP, 6 ICCN.  A message handed to a protocol machine
+   makes it submit its replies (once: the channel hands every message over at most once).  Packets are delivered in write
+   order at once, except: x = dropped, u = delivered twice, l = 300 ms late, v = now and again 300 ms late.  Ticks by runner_next (first at +200 ms). *)
+let run_e2e toks =
+  let faults = Hashtbl.create 8 in
+  List.iter (fun t -> if String.length t >= 3 then
+                Hashtbl.add faults (String.sub t 1 (String.length t - 1)) t.[0]) toks;
+  let has key c = List.mem c (Hashtbl.find_all faults key) in
+  let cfg = ((((Z0, Z0), Z0), Z0), zi 16) in
+  let s = ref (init_sys cfg cfg Z0 Z0) in
+  let transit = ref [] in                      (* (time, seqno, dest side, index into sender's e_sent) *)
+  let seqno = ref 0 in
+  let tick = Hashtbl.create 2 in               (* side -> next Tick time *)
+  Hashtbl.replace tick SA 200;
+  let handed = Hashtbl.create 8 in
+  let cnt b x = List.length (Hashtbl.find_all handed (x, b)) in
+  let scan x before now =
+    let sent = (ep_of !s x).e_sent in
+    List.iteri (fun i _ -> if i >= before then begin
+        let key = (if x = SA then "a" else "b") ^ string_of_int i in
+        let put t = incr seqno; transit := !transit @ [(t, !seqno, other x, i)] in
+        if has key 'v' && not (has key 'x') then put (now + 300);
+        if has key 'x' then ()
+        else if has key 'l' then put (now + 300)
+        else begin put now; if has key 'u' then put now end
+      end) sent in
+  let submit x b now =
+    let before = List.length (ep_of !s x).e_sent in
+    s := fst (step false !s (Submit (x, zi b, Z0, zi now, None))); scan x before now in
+  let react x b now =
+    Hashtbl.add handed (x, b) ();
+    if cnt b x = 1 then
+      (match x, b with
+       | SB, 1 -> Hashtbl.replace tick SB (now + 200); submit SB 2 now
+       | SA, 2 -> submit SA 3 now; submit SA 4 now
+       | SB, 4 -> submit SB 5 now
+       | SA, 5 -> submit SA 6 now
+       | _ -> ()) in
+  submit SA 1 0;
+  let now = ref 0 and settled = ref (-1) in
+  let continue = ref true in
+  while !continue do
+    let next_pkt = List.fold_left (fun acc (t, q, _, _) -> match acc with Some (t', q') when (t', q') <= (t, q) -> acc | _ -> Some (t, q)) None !transit in
+    let next_tick = Hashtbl.fold (fun x t acc -> match acc with Some (t', _) when t' <= t -> acc | _ -> Some (t, x)) tick None in
+    (match next_pkt, next_tick with
+     | Some (tp, q), nt when (match nt with Some (tt, _) -> tp <= tt | None -> true) ->
+       let (_, _, x, i) = List.find (fun (_, q', _, _) -> q' = q) !transit in
+       transit := List.filter (fun (_, q', _, _) -> q' <> q) !transit;
+       now := max !now tp;
+       let before = List.length (ep_of !s x).e_sent in
+       let (s', o) = step false !s (Deliver (x, nat_of_int i, zi !now, None, head_choice)) in
+       s := s'; scan x before !now;
+       let p = List.nth (ep_of !s (other x)).e_sent i in
+       (match o, p.k_body with ODeliver (true, _, _), Some b -> react x (iz b) !now | _ -> ())
+     | _, Some (tt, x) ->
+       now := max !now tt;
+       let before = List.length (ep_of !s x).e_sent in
+       let (s', o) = step false !s (Tick (x, zi !now, [])) in
+       s := s'; scan x before !now;
+       (match o with OTick (ret, _, _) -> Hashtbl.replace tick x (iz (runner_next (zi 500) ret (zi !now))) | _ -> ())
+     | _ -> continue := false);
+    if cnt 5 SA >= 1 && cnt 6 SB >= 1 && !settled < 0 then settled := !now;
+    if (!settled >= 0 && !now > !settled + 700) || !now > 7000 then continue := false
+  done;
+  let a = !s.s_a.e_ch and b = !s.s_b.e_ch in
+  Printf.sprintf "e2e lac=T1S%d,%d/%d lns=T%dS%d,%s est=%d%d" (cnt 2 SA) (iz a.c_ns) (iz a.c_nr)
+    (cnt 1 SB) (cnt 4 SB) (if cnt 1 SB = 0 then "-" else Printf.sprintf "%d/%d" (iz b.c_ns) (iz b.c_nr))
+    (min 1 (cnt 5 SA)) (min 1 (cnt 6 SB))
+
 let () =
   let lines = read_lines Sys.argv.(1) in
   let impls = if Array.length Sys.argv > 2 && Sys.argv.(2) <> "-" then Array.of_list (read_lines Sys.argv.(2)) else [||] in
@@ -369,6 +439,7 @@ let () =
       match tokens line with
       | [] -> ()
       | "estab" :: rest -> print_endline (run_estab linger rest)
+      | "e2e" :: rest -> print_endline (run_e2e rest)
       | "runner" :: rest -> print_endline (run_runner rest (if !idx < Array.length impls then impls.(!idx) else ""))
       | "pair" :: rest -> print_endline (run_pair zlb_recv rest (if !idx < Array.length impls then impls.(!idx) else ""))
       | "disp" :: rest -> print_endline (run_disp zlb_recv rest (if !idx < Array.length impls then impls.(!idx) else ""))
